@@ -6,6 +6,7 @@ package meta
 // See docs/OPTIMIZATIONS.md for algorithm details and benchmark data.
 
 import (
+	"bytes"
 	"errors"
 	"regexp/syntax"
 	"sync"
@@ -106,6 +107,30 @@ func endsWithUniversalMatch(re *syntax.Regexp) bool {
 		// Unwrap capture groups
 		if len(re.Sub) == 1 {
 			return endsWithUniversalMatch(re.Sub[0])
+		}
+	}
+	return false
+}
+
+// endsWithPlus reports whether the last element of the AST (through concatenations
+// and capture groups) is a + repetition, i.e. needs at least one character.
+func endsWithPlus(re *syntax.Regexp) bool {
+	for re != nil {
+		switch re.Op {
+		case syntax.OpPlus:
+			return true
+		case syntax.OpConcat:
+			if len(re.Sub) == 0 {
+				return false
+			}
+			re = re.Sub[len(re.Sub)-1]
+		case syntax.OpCapture:
+			if len(re.Sub) != 1 {
+				return false
+			}
+			re = re.Sub[0]
+		default:
+			return false
 		}
 	}
 	return false
@@ -262,8 +287,10 @@ func NewReverseInnerSearcher(
 	// For patterns like `.*connection.*`:
 	//   - universalPrefix: .* prefix means match always starts at 0
 	//   - universalSuffix: .* suffix means match always ends at len(haystack)
-	universalPrefix := isUniversalMatch(innerInfo.PrefixAST)
-	universalSuffix := endsWithUniversalMatch(innerInfo.SuffixAST)
+	// Only a part that can be EMPTY is universal for the shortcuts: .+ needs a
+	// character before/after the inner literal, which the candidate loop checks.
+	universalPrefix := isUniversalMatch(innerInfo.PrefixAST) && !endsWithPlus(innerInfo.PrefixAST)
+	universalSuffix := endsWithUniversalMatch(innerInfo.SuffixAST) && !endsWithPlus(innerInfo.SuffixAST)
 	// Check if prefix is only start anchors (^, ^+, etc.) - trivially matches at position 0
 	startAnchored := isStartAnchorOnly(innerInfo.PrefixAST)
 
@@ -332,7 +359,9 @@ func (s *ReverseInnerSearcher) Find(haystack []byte) *Match {
 	//   - Match end is ALWAYS len(haystack) (because .* matches any suffix to end)
 	// We can skip expensive DFA scans and just verify with fast IsMatch.
 	// This reduces Find from O(n) DFA scan to O(1) for common patterns!
-	if s.universalPrefix && s.universalSuffix {
+	// Plain . does not match a newline: with one in the haystack the match is
+	// confined to a line and the general candidate loop below finds its bounds.
+	if s.universalPrefix && s.universalSuffix && bytes.IndexByte(haystack, '\n') < 0 {
 		if s.IsMatch(haystack) {
 			return NewMatch(0, len(haystack), haystack)
 		}
@@ -533,7 +562,8 @@ func (s *ReverseInnerSearcher) findIndicesAtImpl(haystack []byte, at int, fwdCac
 
 	// UNIVERSAL MATCH OPTIMIZATION:
 	// For patterns like `.*connection.*` where both prefix and suffix are universal (.*)
-	if s.universalPrefix && s.universalSuffix {
+	// (not when a newline follows 'at': plain . does not cross it)
+	if s.universalPrefix && s.universalSuffix && bytes.IndexByte(haystack[at:], '\n') < 0 {
 		// Just check if there's an inner literal anywhere from 'at'
 		pos := s.prefilter.Find(haystack, at)
 		if pos >= 0 {
